@@ -195,7 +195,7 @@ func init() {
 			if tier == "thorough" {
 				return 40 * time.Minute
 			}
-			return 4 * time.Minute
+			return 7 * time.Minute
 		},
 		Assume: append([]string{
 			"first-generation images are those of C01/C02 whose (uninterrupted) recovery is itself correct; the others are C01/C02's findings",
